@@ -39,8 +39,14 @@ def eval_pred(e, env, module):
     if isinstance(e, ast.UnaryOp) and isinstance(e.op, ast.Not):
         return not eval_pred(e.operand, env, module)
     if isinstance(e, ast.BoolOp):
-        vals = [eval_pred(v, env, module) for v in e.values]
-        return all(vals) if isinstance(e.op, ast.And) else any(vals)
+        last = None
+        for v in e.values:
+            last = eval_pred(v, env, module)
+            if isinstance(e.op, ast.And) and not last:
+                return last
+            if isinstance(e.op, ast.Or) and last:
+                return last
+        return last
     if isinstance(e, ast.Compare) and len(e.ops) == 1:
         l, r = eval_pred(e.left, env, module), eval_pred(e.comparators[0], env, module)
         op = e.ops[0]
@@ -56,9 +62,19 @@ def eval_pred(e, env, module):
             return l is r
         if isinstance(op, ast.IsNot):
             return l is not r
+        if isinstance(op, ast.Lt):
+            return l < r
+        if isinstance(op, ast.LtE):
+            return l <= r
+        if isinstance(op, ast.Gt):
+            return l > r
+        if isinstance(op, ast.GtE):
+            return l >= r
         raise Undecidable('comparison')
     if isinstance(e, ast.Attribute) and isinstance(e.value, ast.Name) and e.value.id in env and isinstance(env[e.value.id], dict):
         return env[e.value.id][e.attr]
+    if isinstance(e, ast.Attribute) and isinstance(e.value, ast.Name) and e.value.id == 'self' and 'self' in env:
+        return env['self'][e.attr]
     if isinstance(e, ast.Attribute) and isinstance(e.value, ast.Name) and e.value.id not in env and \
             e.value.id in getattr(module, 'classes', {}):
         c = module.classes[e.value.id].lookup_const(e.attr)
